@@ -159,6 +159,7 @@ func (w *World) runOp(t *simrt.Task, op *OpSpec, retry bool) *CallRec {
 	var before dirSnap
 	t.Quiet(func() {
 		if hs.Open && op.Kind != OpOpen {
+			cr.AttemptsBefore = hs.St.Stats.Attempts
 			cr.StaleAtStart = !equalStrings(reftable.SimNames(hs.St), w.Latest().Names)
 			if cr.StaleAtStart {
 				w.probe("op-through-stale-handle")
@@ -488,6 +489,23 @@ func (w *World) afterOp(t *simrt.Task, hs *HandleState, cr *CallRec, before dirS
 	// ---- stale handle (C09), sequential histories only
 	if w.Sequential && cr.StaleAtStart && before.OK && cr.Class != "panic" {
 		w.checkStaleOp(hs, cr, before)
+	}
+	// C17: "nothing to do" exactly when no two adjacent tables share a size class
+	if w.Sequential && cr.Kind == OpAutoCompact && !cr.StaleAtStart && cr.Class == "ok" && hs.Open && cr.LatestAtStart < len(w.Versions) {
+		v := w.Versions[cr.LatestAtStart]
+		var sizes []int
+		for _, tc := range v.Tables {
+			sizes = append(sizes, tc.Bytes)
+		}
+		if adj, ok := sizeClasses(sizes, w.Spec.Cfg.Hash); ok {
+			attempted := hs.St.Stats.Attempts > cr.AttemptsBefore
+			w.probe("c17-judged-decision")
+			if attempted != adj {
+				w.violate("C17", "nothing-to-do-iff", fmt.Sprintf("attempted=%v", attempted), fmt.Sprintf("file sizes %v: two adjacent tables share a size class = %v, but a compaction was attempted = %v", sizes, adj, attempted))
+			}
+		} else {
+			w.probe("c17-ambiguous-size-vector")
+		}
 	}
 	// Clean succeeds whenever the list lock is free and the handle is current (C16)
 	if cr.Kind == OpClean && cr.Class != "ok" && cr.Class != "panic" && !cr.StaleAtStart && !cr.SawLockEEXIST && !w.TimeFaults && !w.staleByOthers(hs, cr) {
